@@ -453,12 +453,20 @@ NsRelease == /\ Start /\ nsBusy /\ nsBusy' = FALSE
 
 \* the rest of the same handlePolling drain: L1's data, then the element of L2: getStream registers it whatever `shutdown` is
 DrainEnd == /\ Step("loop") /\ pc["loop"] = "e_wait" /\ ~nsBusy
-            /\ st' = [st EXCEPT ![L2] = "open"] /\ inTable' = [inTable EXCEPT ![L2] = TRUE]
-            /\ rd' = [rd EXCEPT ![L1] = IF @ = "parked" THEN "data" ELSE @]
-            /\ unread' = [unread EXCEPT ![L1] = IF rd[L1] = "parked" \/ st[L1] = "closed" THEN @ ELSE @ + 1, ![L2] = @ + 1]
+            /\ LET st1 == [st EXCEPT ![L2] = "open"]
+                   inT1 == [s \in Streams |-> (inTable[s] \/ s = L2) /\ ~tableNil]
+                   rd1 == [rd EXCEPT ![L1] = IF @ = "parked" THEN "data" ELSE @]
+                   un1 == [unread EXCEPT ![L1] = IF rd[L1] = "parked" \/ st[L1] = "closed" THEN @ ELSE @ + 1, ![L2] = @ + 1]
+                   \* handlePolling goes on until the queue is empty: whatever the peer queued while the drain was parked is
+                   \* handled by this drain too (no IsClosed() check between two elements)
+                   S == DeliverAll(inbox, [st |-> st1, inT |-> inT1, notified |-> notified, cbR |-> cbR, rd |-> rd1,
+                                           unread |-> un1, start |-> [s \in Streams |-> FALSE]])
+               IN /\ st' = S.st /\ notified' = S.notified /\ cbR' = S.cbR /\ rd' = S.rd /\ unread' = S.unread
+                  /\ cbBusy' = [s \in Streams |-> cbBusy[s] \/ (S.start[s] /\ S.st[s] = "open")]
+            /\ inTable' = [inTable EXCEPT ![L2] = TRUE] /\ inbox' = <<>>
             /\ pc' = [pc EXCEPT !["loop"] = "idle"]
-            /\ UNCHANGED <<shutdown, serr, shutCh, ret, lambdas, batch, conn, link, hup, inbox, flag, tableNil, notified, cbBusy,
-                           waitExit, cbL, cbR, peerClosed, fl, acc, bm, qm, sendLoop, snap, cur, ws, tdRuns, nsent, npc, nops,
+            /\ UNCHANGED <<shutdown, serr, shutCh, ret, lambdas, batch, conn, link, hup, flag, tableNil,
+                           waitExit, cbL, peerClosed, fl, acc, bm, qm, sendLoop, snap, cur, ws, tdRuns, nsent, npc, nops,
                            nsBusy, lastOpen, lastSend, sendLate, openAtDeath, kf>>
 
 ThreadStep(t) == ExitSetErr(t) \/ CloseCAS(t) \/ CloseErr(t) \/ CloseNotify(t) \/ CloseChan(t) \/ ClosePost(t)
